@@ -20,7 +20,7 @@ nontrivial = c01.nontrivial
 def scenarios(rng, n, tier):
     pair = 0
     for _ in range(n):
-        opts = {"calls": [4], "p_single": 1.0, "p_skip": 0.0, "p_nodelay": 0.0, "p_stop": 0.1,
+        opts = {"calls": [4], "p_single": 1.0, "p_skip": 0.25, "p_nodelay": 0.0, "p_stop": 0.1,
                 "p_limit": 0.15, "max_jobs": 2, "p_force": 0.15, "p_start": 0.0}
         scn = scen.gen_life(rng, opts)
         # force the (reference weekday, target weekday) pair of the first job
